@@ -17,7 +17,7 @@ pub fn def() -> CheckDef {
         level: "exploration",
         assumptions: &["every name is declared in at most one enclosing scope (the property's precondition)", "reads of names that no enclosing scope declares are not constrained", "the cut of options to declared outputs is only judged for acts that declare outputs", "monotone simulated clock"],
         probes: &["probe.set_write", "probe.script_set", "probe.script_return", "probe.client_output", "probe.branch_on_written_value", "probe.step_scope", "probe.multi_process", "probe.private_key"],
-        quick_cases: 2500,
+        quick_cases: 3000,
         no_shrink: &["models", "starts"],
     }
 }
